@@ -20,7 +20,7 @@ type c04Case struct {
 	Cfg CfgLit `json:"config"`
 	// indices into the atom tables, so that the labels travel with the witness
 	O, M, Q, R []int  `json:",omitempty"`
-	Via        string `json:"via"` // "new" | "reconfigure-zero" | "reconfigure-configured"
+	Via        string `json:"via"` // "new" | "reconfigure-zero" | "reconfigure-configured" | "reconfigure-same-origins"
 }
 
 var (
@@ -85,6 +85,24 @@ func c04Run(k c04Case) (m *cors.Middleware, err error, f *vlib.Failure) {
 		m, err = cors.NewMiddleware(cors.Config{Origins: []string{"https://other.example"}})
 		if err != nil {
 			return nil, nil, vlib.Failf("baseline configuration rejected: %v", err)
+		}
+		err = m.Reconfigure(&cfg)
+	case "reconfigure-debug":
+		m, err = cors.NewMiddleware(cors.Config{Origins: []string{"https://other.example"}, RequestHeaders: []string{"X-A"}})
+		if err != nil {
+			return nil, nil, vlib.Failf("baseline configuration rejected: %v", err)
+		}
+		m.SetDebug(true)
+		err = m.Reconfigure(&cfg)
+	case "reconfigure-same-origins":
+		// the middleware is first configured with the same Origins list under the most permissive switches (if
+		// that is acceptable) and then reconfigured: only the switches / other fields change
+		first := cors.Config{Origins: append([]string(nil), cfg.Origins...)}
+		first.DangerouslyTolerateInsecureOrigins, first.DangerouslyTolerateSubdomainsOfPublicSuffixes = true, true
+		var e0 error
+		m, e0 = cors.NewMiddleware(first)
+		if e0 != nil {
+			m = new(cors.Middleware)
 		}
 		err = m.Reconfigure(&cfg)
 	default:
@@ -239,7 +257,7 @@ func allSwitches() []ref.Switches {
 // c04Explore drives the shared generator; try is called for every configuration.
 func c04Explore(c *vlib.Ctx, try func(k c04Case)) {
 	sws := allSwitches()
-	vias := []string{"new", "reconfigure-zero", "reconfigure-configured"}
+	vias := []string{"new", "reconfigure-zero", "reconfigure-configured", "reconfigure-same-origins", "reconfigure-debug"}
 	// P1: all 32 switch combinations x all origin lists of length <= L, other fields valid
 	L := vlib.Pick(c, 2, 3)
 	ol := idxLists(len(c04OA), L)
@@ -260,7 +278,7 @@ func c04Explore(c *vlib.Ctx, try func(k c04Case)) {
 		ix := p1.At(i, tmp[:0])
 		via := "new"
 		if !c.Thorough() || len(ol[ix[1]]) <= 2 {
-			via = vias[int(i)%3]
+			via = vias[int(i)%5]
 		}
 		k := c04Make(sws[ix[0]], ol[ix[1]], []int{0}, []int{0}, []int{0}, 30, 0, via)
 		try(k)
@@ -281,7 +299,7 @@ func c04Explore(c *vlib.Ctx, try func(k c04Case)) {
 	c.ParRange(p2.Count(), 64, "C04/C05 field products", func(i int64) {
 		var tmp [8]int
 		ix := p2.At(i, tmp[:0])
-		k := c04Make(sws[ix[0]], oc[ix[1]], mc[ix[2]], qc[ix[3]], rc[ix[4]], ages[ix[5]], sts[ix[6]], vias[int(i)%3])
+		k := c04Make(sws[ix[0]], oc[ix[1]], mc[ix[2]], qc[ix[3]], rc[ix[4]], ages[ix[5]], sts[ix[6]], vias[int(i)%5])
 		try(k)
 	})
 	c.States.Add(p2.Count())
@@ -297,7 +315,7 @@ func c04Explore(c *vlib.Ctx, try func(k c04Case)) {
 	for i := range c04RA {
 		singles = append(singles, fa{3, i})
 	}
-	p3 := vlib.Product{Sizes: []int{len(sws), len(singles), 3, 3}}
+	p3 := vlib.Product{Sizes: []int{len(sws), len(singles), 3, 5}}
 	c.ParRange(p3.Count(), 64, "C04/C05 single atoms", func(i int64) {
 		var tmp [4]int
 		ix := p3.At(i, tmp[:0])
@@ -347,7 +365,7 @@ func c04Explore(c *vlib.Ctx, try func(k c04Case)) {
 		case 3:
 			r = ins(validR)
 		}
-		try(c04Make(sws[ix[0]], o, m, q, r, 600, 201, vias[int(i)%3]))
+		try(c04Make(sws[ix[0]], o, m, q, r, 600, 201, vias[int(i)%5]))
 	})
 	c.States.Add(p4.Count())
 	c.Set("atoms", map[string]int{"origins": len(c04OA), "methods": len(c04MA), "request_headers": len(c04QA), "response_headers": len(c04RA)})
